@@ -3,6 +3,9 @@
 (*   Reset                                                                                  *)
 (*   CreateBegin rx ry sx sy scale_x scale_y bx by     written BEFORE the call              *)
 (*   Create      ok n hdr[4] (16.16 words as [hi, lo], hi signed)   after the call returned  *)
+(*               ok = false (NULL) is accepted only for arguments whose filter cannot be        *)
+(*               represented (an axis of 32768 or more taps, Filter!Unrepresentable)            *)
+(*   Skip        a set_filter / composite step of the script was not executed (no block)       *)
 (*   Rows / RowsW  axis first rows     the n-4 values after the header, in order; Rows: plain *)
 (*               integers (all |v| < 2^20 and rows shorter than 2048), RowsW: [hi, lo] pairs *)
 (*   SetFilter   fmt px[4] ret         constant source image, pixman_image_set_filter        *)
@@ -16,16 +19,19 @@
 (* unanswered; the trace then ends in a Crash line that nothing explains.                    *)
 EXTENDS Filter, TraceIO
 
-VARIABLES l, src       \* src: the constant <<a, r, g, b>> the attached source image holds
+VARIABLES l, src, req  \* src: the constant <<a, r, g, b>> the attached source image holds; req: the CreateBegin event in force
 
 Ev == TraceLog[l]
 Is(name) == l <= TraceLen /\ TraceLog[l].e = name
 
 W16(p) == p[1] * One + p[2]
 
-RECURSIVE SumHi(_, _), SumLo(_, _)
-SumHi(r, i) == IF i > Len(r) THEN 0 ELSE r[i][1] + SumHi(r, i + 1)
-SumLo(r, i) == IF i > Len(r) THEN 0 ELSE r[i][2] + SumLo(r, i + 1)
+RECURSIVE SumPart(_, _, _, _)
+SumPart(r, c, i, j) ==                        \* r[i][c] + ... + r[j][c], by halving
+    IF i > j THEN 0 ELSE IF i = j THEN r[i][c]
+    ELSE LET m == (i + j) \div 2 IN SumPart(r, c, i, m) + SumPart(r, c, m + 1, j)
+SumHi(r, i) == SumPart(r, 1, i, Len(r))
+SumLo(r, i) == SumPart(r, 2, i, Len(r))
 (* exact test SUM (hi*2^16 + lo) = One without leaving 32 bits; returns One or, if not equal, 0 *)
 WideSum(r) == LET sh == SumHi(r, 1)  sl == SumLo(r, 1) IN
               IF sl % One = 0 /\ sh + (sl \div One) = 1 THEN One ELSE 0
@@ -40,7 +46,7 @@ Channels(fmt, p) ==
 TReset ==
     /\ Is("Reset")
     /\ flt.st \notin {"calling", "creating"}
-    /\ flt' = Idle /\ src' = <<0, 0, 0, 0>> /\ l' = l + 1
+    /\ flt' = Idle /\ src' = <<0, 0, 0, 0>> /\ UNCHANGED req /\ l' = l + 1
 
 TCreateBegin ==
     /\ Is("CreateBegin")
@@ -48,13 +54,22 @@ TCreateBegin ==
     /\ Ev.bx \in 0..8 /\ Ev.by \in 0..8                      \* the statement's domain
     /\ W16(Ev.scale_x) > 0 /\ W16(Ev.scale_y) > 0
     /\ CreateCall(Ev.bx, Ev.by)
+    /\ req' = Ev
     /\ UNCHANGED src /\ l' = l + 1
 
 TCreate ==
     /\ Is("Create")
-    /\ Ev.ok /\ Has(Ev, "hdr")
-    /\ CreateReturn(Ev.n, [i \in 1..4 |-> W16(Ev.hdr[i])])
-    /\ UNCHANGED src /\ l' = l + 1
+    /\ IF Ev.ok
+       THEN Has(Ev, "hdr") /\ CreateReturn(Ev.n, [i \in 1..4 |-> W16(Ev.hdr[i])])
+       ELSE CreateRefused(\/ Unrepresentable(req.rx, req.sx, W16(req.scale_x))
+                          \/ Unrepresentable(req.ry, req.sy, W16(req.scale_y)))
+    /\ UNCHANGED <<src, req>> /\ l' = l + 1
+
+(* a script step that needs a block, after the call refused to make one: nothing was executed *)
+TSkip ==
+    /\ Is("Skip")
+    /\ flt.st = "idle"
+    /\ UNCHANGED <<flt, src, req>> /\ l' = l + 1
 
 TRows ==
     /\ Is("Rows")
@@ -62,7 +77,7 @@ TRows ==
            lens(k) == Len(rows[k])
            sums(k) == SumSeq(rows[k])
        IN CreateRows(Ev.axis, Ev.first, Len(rows), lens, sums)
-    /\ UNCHANGED src /\ l' = l + 1
+    /\ UNCHANGED <<src, req>> /\ l' = l + 1
 
 TRowsW ==
     /\ Is("RowsW")
@@ -70,40 +85,40 @@ TRowsW ==
            lens(k) == Len(rows[k])
            sums(k) == WideSum(rows[k])
        IN CreateRows(Ev.axis, Ev.first, Len(rows), lens, sums)
-    /\ UNCHANGED src /\ l' = l + 1
+    /\ UNCHANGED <<src, req>> /\ l' = l + 1
 
 TSetFilter ==
     /\ Is("SetFilter")
     /\ SetFilter(Ev.ret = 1)
     /\ src' = Channels(Ev.fmt, Ev.px)
-    /\ l' = l + 1
+    /\ UNCHANGED req /\ l' = l + 1
 
 TRenderBegin ==
     /\ Is("RenderBegin")
     /\ flt.st \in {"attached", "rendered"}
     /\ Ev.repeat \in {"NORMAL", "PAD", "REFLECT"}          \* an unbounded constant image
-    /\ UNCHANGED <<flt, src>> /\ l' = l + 1
+    /\ UNCHANGED <<flt, src, req>> /\ l' = l + 1
 
 TRender ==
     /\ Is("Render")
     /\ Len(Ev.out) = Ev.dw * Ev.dh
     /\ Render(src, Ev.out)
-    /\ UNCHANGED src /\ l' = l + 1
+    /\ UNCHANGED <<src, req>> /\ l' = l + 1
 
 TScanDone ==
     /\ Is("ScanDone")
     /\ flt.st \notin {"calling", "creating"}
     /\ Ev.scanned >= Ev.selected + Ev.control
-    /\ UNCHANGED <<flt, src>> /\ l' = l + 1
+    /\ UNCHANGED <<flt, src, req>> /\ l' = l + 1
 
 (* the driver reached the end of its script: no call is left unanswered, nothing follows *)
 TEnd ==
     /\ Is("End")
     /\ flt.st \notin {"calling", "creating"}
     /\ l = TraceLen
-    /\ UNCHANGED <<flt, src>> /\ l' = l + 1
+    /\ UNCHANGED <<flt, src, req>> /\ l' = l + 1
 
-TInit == FInit /\ l = 1 /\ src = <<0, 0, 0, 0>>
-TNext == TReset \/ TCreateBegin \/ TCreate \/ TRows \/ TRowsW \/ TSetFilter \/ TRenderBegin \/ TRender \/ TScanDone \/ TEnd
-TSpec == TInit /\ [][TNext]_<<flt, l, src>>
+TInit == FInit /\ l = 1 /\ src = <<0, 0, 0, 0>> /\ req = [e |-> "none"]
+TNext == TReset \/ TCreateBegin \/ TCreate \/ TRows \/ TRowsW \/ TSetFilter \/ TRenderBegin \/ TRender \/ TScanDone \/ TSkip \/ TEnd
+TSpec == TInit /\ [][TNext]_<<flt, l, src, req>>
 =============================================================================
